@@ -39,10 +39,15 @@ fn fam_union(t: Tier) -> BoxedStrategy<Case> {
 /// documents with a prolog (declaration, comments, processing instructions, a DOCTYPE with or without entity declarations, in
 /// every order XML allows) and mixed content: CDATA sections next to character data, entity references in verbatim content
 fn fam_prolog(_t: Tier) -> BoxedStrategy<Case> {
+    (prolog_docs(), cfg_any(), cfg_any()).prop_map(|(input, c1, c2)| Case { input, c1, c2, fam: "prolog".into() }).boxed()
+}
+
+/// (shared with C02: the same documents must come out well-formed)
+pub fn prolog_docs() -> BoxedStrategy<String> {
     const TEXTS: &[&str] = &["matrix[a[0]]&gt;1", "]]&gt;", "a &amp; b", "plain", " ]] &gt; ", "&#93;&#93;&#62;", "x]]", "&gt;"];
     const REFS: &[&str] = &["&proj;", "&amp;", "&proj;&proj;", "&#65;", "&other;"];
-    (vec(0u8..4, 0..4), 0u8..3, any::<bool>(), vec((0u8..8, 0..TEXTS.len(), 0..TEXTS.len(), 0..REFS.len()), 1..5), cfg_any(), cfg_any())
-        .prop_map(|(pro, dt, decl, items, c1, c2)| {
+    (vec(0u8..4, 0..4), 0u8..3, any::<bool>(), vec((0u8..10, 0..TEXTS.len(), 0..TEXTS.len(), 0..REFS.len()), 1..5))
+        .prop_map(|(pro, dt, decl, items)| {
             let doctype = match dt {
                 1 => "<!DOCTYPE svg PUBLIC \"-//W3C//DTD SVG 1.1//EN\" \"http://www.w3.org/Graphics/SVG/1.1/DTD/svg11.dtd\">\n",
                 2 => "<!DOCTYPE svg [\n  <!ENTITY proj \"Apollo\">\n]>\n",
@@ -79,11 +84,14 @@ fn fam_prolog(_t: Tier) -> BoxedStrategy<Case> {
                     4 => format!("  <g><rect wh=\"2\"/><![CDATA[x]]>{t}<circle r=\"1\"/>{t2}</g>\n"),
                     5 => format!("<![CDATA[lead]]>{t}\n  <rect wh=\"3\"/>\n"),
                     6 => format!("  <defs><![CDATA[ d ]]>{t}<rect id=\"d{}\" wh=\"1\"/></defs>\n", t.len()),
+                    // elements of other vocabularies, with prefixed names and explicit end tags
+                    8 => format!("  <metadata><cc:Work xmlns:cc=\"http://creativecommons.org/ns#\" xmlns:dc=\"http://purl.org/dc/elements/1.1/\"><dc:title>{t}</dc:title><dc:date></dc:date></cc:Work></metadata>\n"),
+                    9 => format!("  <g><x:note xmlns:x=\"urn:x\" x:k=\"v\">{t}<x:b>{t2}</x:b></x:note><rect wh=\"4\"/></g>\n"),
                     _ => format!("  <style>{r} .a {{ fill: red; }} {t}</style>\n"),
                 });
             }
             s.push_str("</svg>");
-            Case { input: s, c1, c2, fam: "prolog".into() }
+            s
         })
         .boxed()
 }
